@@ -94,7 +94,7 @@ def ob_plain(cx):
 
 def obligations(tier):
     q = tier == "quick"
-    p = dict(nargs=2, larg=3 if q else 4, lline=5 if q else 7, alpha=ALPHA if q else ALPHA_T)
+    p = dict(nargs=2, larg=3 if q else 4, lline=5 if q else 6, alpha=ALPHA if q else ALPHA_T)
     to = 900 if q else 7200
     return [
         Ob("quote_split_roundtrip", ob_roundtrip, [CM], p, to, 2 if q else 1, ["full"],
